@@ -143,6 +143,11 @@ func AbstractBuffers() {}
 // every input anybody has found; the engine otherwise treats them as arbitrary).
 func HashInjective() {}
 
+// ConcreteHashes: from here on murmur3 of an entirely concrete input is computed by the real
+// function (long concrete histories would otherwise create one fresh hash value per input and
+// leave every comparison between them to the solver); symbolic inputs stay uninterpreted.
+func ConcreteHashes() {}
+
 // SplitConstDivision(n): from here on the engine decides a signed division (or
 // remainder) of a symbolic value by a positive constant by forking on the quotient
 // in (-n, n) instead of handing the solver a 64-bit divider; a dividend outside
